@@ -200,6 +200,25 @@ def _membership_base(x):
         x = y
 
 
+def _chain_parts(x):
+    """itertools.chain(a, b, ...) / chain.from_iterable([a, b, ...]) / chain.from_iterable(f(c) for c in (c1, c2, ...))
+    -> [a, b, ...]: the sequences that are concatenated, in order (None if not of that shape)."""
+    if not (is_term(x) and x[0] == "call" and not x[3]):
+        return None
+    name = callee_name(x)
+    if name == "itertools.chain" and x[2] and all(a[0] != "star" for a in x[2]):
+        return list(x[2])
+    if name == "itertools.chain.from_iterable" and len(x[2]) == 1:
+        y = x[2][0]
+        if y[0] in ("list", "tuple") and all(a[0] != "star" for a in y[1]):
+            return list(y[1])
+        if y[0] == "comp" and y[1] in ("gen", "list") and len(y[3]) == 1 and not y[3][0][2]:
+            tg, it, _c = y[3][0]
+            if is_term(tg) and tg[0] == "bv" and it[0] in ("tuple", "list") and all(a[0] == "const" for a in it[1]):
+                return [_subst_terms(y[2], {tg: a}) for a in it[1]]
+    return None
+
+
 def _bar_parts(n):
     """Flatten a normalised `|`-chain / dict-merge into its ordered parts."""
     if is_term(n) and n[0] == "bar":
@@ -447,6 +466,10 @@ def norm(t, _arith=True):  # noqa: C901, PLR0911, PLR0912
             if sel is not None:
                 return ("call", ("attr", norm(f[1]), "query"), (sel,), ())
         name = callee_name(t)
+        if name == "builtins.list" and len(t[2]) == 1 and not t[3]:
+            parts = _chain_parts(t[2][0])
+            if parts is not None:
+                return _mk_cat([("seq", norm(_strip_keys(x))) for x in parts])
         if name in ("builtins.set", "builtins.list", "builtins.tuple", "builtins.sorted", "builtins.len",
                     "builtins.frozenset", "builtins.iter", "builtins.enumerate") and len(t[2]) >= 1:
             t = ("call", f, (_strip_keys(t[2][0]), *t[2][1:]), t[3])
